@@ -43,6 +43,8 @@ func (e *Expr) String() string {
 			v = append(v, b.Name+" "+b.Sort)
 		}
 		return "(" + e.Op + " " + strings.Join(v, ", ") + " :: " + e.Args[0].String() + ")"
+	case "slicetype":
+		return "[]" + e.Args[0].String()
 	case "ite":
 		return "(" + e.Args[0].String() + " ? " + e.Args[1].String() + " : " + e.Args[2].String() + ")"
 	}
@@ -413,6 +415,14 @@ func (p *parser) primary() (*Expr, error) {
 				return nil, err
 			}
 			return e, nil
+		}
+		if t.s == "[" && p.isOp("]") { // slice type []T (type arguments only)
+			p.i++
+			x, err := p.unary()
+			if err != nil {
+				return nil, err
+			}
+			return &Expr{Op: "slicetype", Args: []*Expr{x}}, nil
 		}
 		if t.s == "*" { // dereference
 			x, err := p.unary()
